@@ -3,6 +3,7 @@ import Proofs.DkgFlags
 import Props.C08
 import Proofs.DkgRounds
 import Proofs.DkgJoint
+import Proofs.DkgShare
 
 /-! # C07 — DKG: honest participants agree on the verdict and on consistent keys
 
@@ -151,6 +152,66 @@ theorem tie_steps (s : St O) (o : Nat) (m : Bytes) (hr : s.running = true) (ho :
   · intro hct; unfold FvssQ.nextTimeout; simp [hr, hct]; rfl
   · intro h1 h2; unfold FvssQ.end_; simp [hr, h1, h2]; rfl
 
+open Proofs.DkgCommute in
+/-- **consistent keys, for every behaviour of the dealer and of the others and every schedule**: at a participant
+    other than the dealer, if `End` returns keys after any three rounds of deliveries (arbitrary senders, tags,
+    payloads, repetitions and order) then they are the group key and key shares of the stored verification
+    vector and the returned private share passes the share check against that vector — the share is either the
+    dealer's first private message or the answer to the node's own complaint, never an unchecked value -/
+theorem keys_match_public_data (size threshold me dealer : Nat) (hne : me ≠ dealer) (r1 r2 r3 : List Dl)
+    (x : Nat) (Y : Bytes) (ys : List Bytes)
+    (hk : exec ({ size := size, threshold := threshold, me := me, dealer := dealer, running := true } : St O)
+      r1 r2 r3 = .keys x Y ys) :
+    ∃ v, (final ({ size := size, threshold := threshold, me := me, dealer := dealer, running := true } : St O)
+        r1 r2 r3).vA = some v ∧ Y = O.groupKey v ∧ ys = O.pubShares v ∧ O.checkLog v me x = true := by
+  obtain ⟨v, a1, a2, a3, a4⟩ := exec_keys_consistent _ (sc_fresh size threshold me dealer hne) r1 r2 r3 x Y ys hk
+  refine ⟨v, a1, a2, a3, ?_⟩
+  have hme : (final ({ size := size, threshold := threshold, me := me, dealer := dealer, running := true } : St O)
+      r1 r2 r3).me = me := final_me _ (sc_fresh size threshold me dealer hne) r1 r2 r3
+  rw [hme] at a4
+  exact a4
+
+open Proofs.DkgCommute in
+/-- share consistency is an invariant of every delivery and every timeout (the induction behind the theorem above) -/
+theorem share_consistency_invariant (s : St O) (h : SC s) (e : Dl) : SC (Proofs.DkgCommute.step s e) ∧ SC (tstep s) :=
+  ⟨sc_step s h e, sc_tstep s h⟩
+
+section NonVacuity
+open Proofs.DkgCommute
+
+/-- toy crypto record: a share of participant `k` is valid iff it equals `k + 5` -/
+def toy : Ops where
+  Vec := Unit
+  readVec := fun _ _ _ => some ()
+  checkLog := fun _ k x => x == k + 5
+  readScalar := fun b => some (b.headD 0).toNat
+  writeScalar := fun _ => []
+  addScalar := fun a b => a + b
+  groupKey := fun _ => []
+  pubShares := fun _ => []
+  groupKeyIsIdentity := fun _ => false
+  sumVecs := fun _ => none
+  genPoly := fun _ _ => none
+  polyEval := fun _ _ => 0
+  vecBytes := fun _ => []
+  vecOfPoly := fun _ _ => ()
+
+def toyVec : Bytes := List.replicate (96 * 2) 0
+def toyBadShare : Bytes := tagShare :: 9 :: List.replicate 31 0
+def toyAnswer : Bytes := tagAnswer :: 1 :: 6 :: List.replicate 31 0
+def toyStart : St toy := { size := 3, threshold := 1, me := 1, dealer := 0, running := true }
+
+/-- non-vacuity of `keys_match_public_data`: the dealer sends a wrong share (9), the node complains, the dealer
+    answers with the right one (6 = 1 + 5); `End` returns keys with the adopted share -/
+example : exec toyStart [.bcast 0 (tagVerifVec :: toyVec), .priv 0 toyBadShare] [.bcast 0 toyAnswer] [] =
+    .keys 6 [] [] := by decide +kernel
+
+/-- and a wrong answer (7) makes `End` fail instead of returning an unchecked share -/
+example : exec toyStart [.bcast 0 (tagVerifVec :: toyVec), .priv 0 toyBadShare]
+    [.bcast 0 (tagAnswer :: 1 :: 7 :: List.replicate 31 0)] [] = .failure := by decide +kernel
+
+end NonVacuity
+
 end Props.C07
 
 #print axioms Props.C07.fvssq_keys_shape
@@ -164,3 +225,5 @@ end Props.C07
 #print axioms Props.C07.tie_steps
 #print axioms Props.C07.joint_end_order_independent
 #print axioms Props.C07.tie_joint
+#print axioms Props.C07.keys_match_public_data
+#print axioms Props.C07.share_consistency_invariant
